@@ -638,6 +638,16 @@ func (c *compiler) PointerNode(node *ast.PointerNode) {
 }
 
 func (c *compiler) ConditionalNode(node *ast.ConditionalNode) {
+	if node.Exp1 == node.Cond {
+		// `a ?: b`: the condition is its own result, evaluate it once.
+		c.compile(node.Cond)
+		end := c.emit(OpJumpIfTrue, c.placeholder()...)
+		c.emit(OpPop)
+		c.compile(node.Exp2)
+		c.patchJump(end)
+		return
+	}
+
 	c.compile(node.Cond)
 	otherwise := c.emit(OpJumpIfFalse, c.placeholder()...)
 
